@@ -32,7 +32,8 @@ METHOD_OF = {"plain_computeParams": "StrategyOnePlusLambda.computeParams",
              "plain_update_scalar": "StrategyOnePlusLambda.update (scalar slice)",
              "active_computeParams": "StrategyActiveOnePlusLambda.__init__ / _compute_lambda_parameters (parameters)",
              "mo_computeParams": "StrategyMultiObjective.__init__ (parameters)",
-             "active_rank1_scalar": "StrategyActiveOnePlusLambda._rank1update (scalar slice)"}
+             "active_rank1_scalar": "StrategyActiveOnePlusLambda._rank1update (scalar slice)",
+             "active_p_succ": "StrategyActiveOnePlusLambda.update (success frequency)"}
 
 
 def _typechecks(txt):
@@ -1613,13 +1614,13 @@ def main(run):
         run.correspond("rounds", "C14", ctx.terms, ctx.cases, **kw)
     if gen_check == "check_both":
         run.extra_cov["cases_also_evaluated_on_regenerated_definitions"] = sum(
-            1 for t in ctx.terms if t.split(" ", 1)[0] in ("CPlainParams", "CActParams", "CMoParams", "CPlainUpd"))
+            1 for t in ctx.terms if t.split(" ", 1)[0] in ("CPlainParams", "CActParams", "CMoParams", "CPlainUpd", "CActUpd"))
     if gen_unproved:
         # translated but not provably the model: do the regenerated definitions at least agree with the implementation?
         ok_, out = vlib.make_targets(["Corr/C14_gen.vo"])
         if ok_:
             idx = [i for i, t in enumerate(ctx.terms)
-                   if t.split(" ", 1)[0] in ("CPlainParams", "CActParams", "CMoParams", "CPlainUpd")]
+                   if t.split(" ", 1)[0] in ("CPlainParams", "CActParams", "CMoParams", "CPlainUpd", "CActUpd")]
             traces, ndis = run.traces, len(run.disagreements)
             try:
                 bad = run.correspond("diagnosis_regenerated", "C14", [ctx.terms[i] for i in idx], [ctx.cases[i] for i in idx],
